@@ -22,6 +22,8 @@ package queue
 //@   props C09
 //@   requires [wired] queue != nil && ctx != nil
 // stepping stones for the release case, where the pending queue is pushed to twice
+//@   at Push #1
+//@     assert [parked-keys-other-than-the-released-one-stay-in-flight] forall k K :: in(k, onHoldQueue) && k != released.Key ==> has(addr(onHold), k)
 //@   at Push #2
 //@     assert [released-key-not-in-flight] forall i int :: 0 <= i && i < len(onHold.items) ==> onHold.items[i] != released.Key
 //@     assert [in-flight-never-pending-between-pushes] forall i int, j int :: 0 <= i && i < len(onHold.items) && 0 <= j && j < len(pqueue.items) ==> onHold.items[i] != pqueue.items[j].Key
@@ -30,6 +32,7 @@ package queue
 //@     invariant [no-duplicates] noDup(addr(onHold)) && uniqKeys(addr(pqueue))
 //@     invariant [separate] onHold.items.blk != addr(onHold).blk && pqueue.items.blk != addr(pqueue).blk && onHold.items.blk != addr(pqueue).blk &&
 //@       pqueue.items.blk != addr(onHold).blk && (onHold.items.blk != pqueue.items.blk || onHold.items.blk == 0) && addr(onHold).blk != addr(pqueue).blk
+//@     invariant [parked-only-while-in-flight] forall k K :: in(k, onHoldQueue) ==> has(addr(onHold), k)
 //@     invariant [wired] queue != nil && ctx != nil && onHoldQueue != nil
 //@
 // An item reports its release to the queue at most once: the first Requeue/Release marks it.
